@@ -19,16 +19,22 @@ fn rlp_ref<const L: usize, const NO: usize>(lim: &[u64; L]) -> ([u8; NO], usize)
         out[0] = refm::byte(lim, 0);
         return (out, 1);
     }
-    // n <= 55 at the widths instantiated here
-    out[0] = 0x80 + n as u8;
+    // short string (payload <= 55 bytes): 0x80 + n; long string (56..=255 bytes): 0xb8, n
+    let h = if n <= 55 { 1 } else { 2 };
+    if n <= 55 {
+        out[0] = 0x80 + n as u8;
+    } else {
+        out[0] = 0xb8;
+        out[1] = n as u8;
+    }
     let mut i = 0;
     while i < NO - 1 {
-        if i < n {
-            out[1 + i] = refm::byte(lim, n - 1 - i);
+        if i < n && h + i < NO {
+            out[h + i] = refm::byte(lim, n - 1 - i);
         }
         i += 1;
     }
-    (out, 1 + n)
+    (out, h + n)
 }
 
 macro_rules! rlp_enc {
